@@ -63,31 +63,41 @@ def strip(src):
 
 def classify(before):
     """kind of the scope opened by a `{` given the text since the previous `;`, `{` or `}`"""
-    b = before.strip()
+    b = " ".join(before.split())[-600:]
     if re.search(r"\bnamespace\b[\w\s:]*$", b):
         return "namespace", ""
     if re.search(r"\benum\b", b) and "(" not in b:
         return "enum", ""
-    m = re.search(r"\b(class|struct|union)\b\s+([\w:]+)?[^()]*$", b)
-    if m and not b.endswith(")"):
-        return "class", m.group(2) or ""
-    if re.search(r"\)\s*(const)?\s*(noexcept)?\s*(override)?\s*(MANIF_MOVE_NOEXCEPT)?\s*(->\s*[^{;]+)?$", b) or re.search(r"\)\s*:\s*[\w:<>, ]+\(.*\)$", b, re.S):
-        # function definition: name = identifier before the parameter list
-        head = re.split(r"\)\s*:\s*\w", b)[0]
-        depth, k = 0, len(head) - 1
-        while k >= 0:
-            if head[k] == ")":
+    tail = b
+    # drop trailing qualifiers / trailing return type of a function definition
+    m = re.search(r"->[^(){};]*$", tail)
+    if m:
+        tail = tail[:m.start()].rstrip()
+    for _ in range(4):
+        t2 = re.sub(r"\s*\b(const|noexcept|override|final|MANIF_MOVE_NOEXCEPT)$", "", tail).rstrip()
+        if t2 == tail:
+            break
+        tail = t2
+    if tail.endswith(")"):
+        # function definition (possibly with a constructor initialiser list `) : a(b), c(d)`):
+        # the name is the identifier before the FIRST top-level parameter list
+        depth, first_open = 0, None
+        for k, ch in enumerate(tail):
+            if ch == "(":
+                if depth == 0 and first_open is None:
+                    first_open = k
                 depth += 1
-            elif head[k] == "(":
+            elif ch == ")":
                 depth -= 1
-                if depth == 0:
-                    break
-            k -= 1
-        m2 = re.search(r"([\w:~<>]+|operator\s*\S+)\s*$", head[:max(k, 0)])
+        head = tail[:first_open] if first_open is not None else tail
+        m2 = re.search(r"([\w:~]+(?:<[^<>]*>)?(?:::[\w~]+)*|operator\s*\S+)\s*$", head)
         name = m2.group(1) if m2 else "?"
         if name in ("if", "for", "while", "switch", "catch"):
             return "block", ""
         return "function", name
+    m = re.search(r"\b(class|struct|union)\b\s+([\w:]+)?", b)
+    if m and "(" not in b[m.start():]:
+        return "class", m.group(2) or ""
     return "block", ""
 
 
